@@ -156,6 +156,34 @@ impl P for Po {
     }
 }
 
+/// Not reflexive (like a float holding NaN): a value with the top bit set is neither equal to nor comparable with anything, itself included.
+#[derive(Debug, Clone, Copy)]
+pub struct Nr(pub u8);
+impl PartialEq for Nr {
+    fn eq(&self, o: &Self) -> bool {
+        self.0 == o.0 && self.0 & 0x80 == 0
+    }
+}
+impl PartialOrd for Nr {
+    fn partial_cmp(&self, o: &Self) -> Option<Ordering> {
+        if (self.0 | o.0) & 0x80 != 0 {
+            None
+        } else {
+            Some(self.0.cmp(&o.0))
+        }
+    }
+}
+impl Gen for Nr {
+    fn gen<S: Src>(s: &mut S) -> Self {
+        Nr(s.u8())
+    }
+}
+impl P for Nr {
+    fn p(&self) -> u8 {
+        self.0
+    }
+}
+
 // --- key / by callbacks: N differs per helper attribute so that precedence is observable -----
 pub fn kk<const N: u32, X: P>(x: &X) -> u8 {
     x.p() >> N
